@@ -133,7 +133,7 @@ RECIPES = {
     "Option": ["Option('A', rec('dflt'))","Option('A')", "Option('A', 5)", "Option('S.X', Option('B'))", "Option('A', '{B}')", "Option('A', domain=[1, 2])",
                "Option('A', 1, domain=Option('DOM', [1, 2]))", "Option('L.0')", "Option('A', domain=lambda t: {2: True}[t])",
                "Option('A', 7, domain=lambda t: {2: True, 7: True}[t])"],
-    "Template": ["Template('inputs={S}')", "Template('{L}')", "Template('{A}-{S.X}')", "Template('{A} {:p:}', p=Option('B', 2))"],
+    "Template": ["Template('inputs={S}')", "Template('{L}')", "Template('{A}-{S.X}')", "Template('{A} {:p:}', p=Option('B', 2))", "Template('{:p:}', p=Value('{NOPE}'))", "Template('{:p:}-{A}', p=Value({'x': 1}))", "Template('{:p:}', p=Option('B') >> ident)"],
     "_AllOptions": ["AllOptions"],
     "Dataset": ["ds(Option('A'), Option('AB', 0), Option('A_DECAY', 1))","ds(Option('A'), Option('B', 2))", "ds(Option('A'), options={'B': 1})", "ds(ds(Option('A')), Option('S.X', 0), default_options={'S': {'X': 4}})",
                 "ds(Option('A'), Option('S.B', 0), Option('S.C', 'c-fallback'), default_options={'S': {'B': 2, 'C': 3}, 'T': 5})",
@@ -437,6 +437,14 @@ def check_law(law, expr, o, fresh):
                     return "with_options modified the dataset it derives from"
             return None
         return None
+    if law == "L6k":
+        for what, r in (("evaluate", outcome(lambda: e(copy.deepcopy(o)))), ("validate", outcome(lambda: fresh().validate(copy.deepcopy(o)))),
+                        ("keys", outcome(lambda: fresh().keys(copy.deepcopy(o))))):
+            if r[0] == "err" and is_missing(r[1]):
+                mk = missing_key(r[1])
+                if not isinstance(mk, str) or present(o, mk):
+                    return f"{what} fails for a missing option but names {mk!r}, which is present in {o}"
+        return None
     if law == "L6":
         ev = outcome(lambda: e(copy.deepcopy(o)))
         if ev[0] == "err":
@@ -457,7 +465,7 @@ def check_law(law, expr, o, fresh):
 
 
 LAW_OF_GROUP = {"L1": ["L1"], "L2": ["L2"], "L3": ["L3"], "L4a": ["L4a"], "L4t": ["L4t"], "L5": ["L5"], "L5b": ["L5b"], "L5d": ["L5d"],
-                "L6": ["L6"], "L6v": ["L6v"], "C05": ["C05"], "C08": ["C08"], "FP": ["FP"], "fingerprint": ["FP"], "soundness": ["FP"], "C04": ["C04"], "C06": ["C06"], "C06c": ["C06"], "with_options": ["C08"], "with_default_options": ["C08"], "tower": ["C08", "C05"]}
+                "L6": ["L6"], "L6k": ["L6k"], "L6v": ["L6v"], "C05": ["C05"], "C08": ["C08"], "FP": ["FP"], "fingerprint": ["FP"], "soundness": ["FP"], "C04": ["C04"], "C06": ["C06"], "C06c": ["C06"], "with_options": ["C08"], "with_default_options": ["C08"], "tower": ["C08", "C05"]}
 
 
 def build(recipe):
